@@ -486,11 +486,54 @@ func driveTwice(t *Term, maxMoves, budget int) (first, second []string) {
 	return
 }
 
+// driveInterleaved starts ONE seq value twice and advances the two iterators ALTERNATELY: each iterator's own
+// record must equal the record of a solo run (nothing a run needs may live in the Seq value or its yield sites).
+func driveInterleaved(t *Term, maxMoves, budget int) (solo []string, recs [2][]string) {
+	l := &logger{budget: 3 * budget}
+	s := build(t, l)
+	step := func(it seq.Iterator[int], done *bool) (out []string) {
+		if *done {
+			return nil
+		}
+		mark := len(l.ev)
+		defer func() {
+			if r := recover(); r != nil {
+				out = append(append([]string{}, l.ev[mark:]...), fmt.Sprint("PANIC:", r))
+				*done = true
+			}
+		}()
+		l.log("M>")
+		ok := it.MoveNext()
+		l.log(fmt.Sprintf("M<%v C=%d", ok, it.Current()))
+		if !ok {
+			l.log(fmt.Sprintf("R=%d", it.(seq.Generator[int]).Result()))
+			*done = true
+		}
+		return append([]string{}, l.ev[mark:]...)
+	}
+	// solo
+	{
+		it := seq.Start(s)
+		done := false
+		for i := 0; i < maxMoves && !done; i++ {
+			solo = append(solo, step(it, &done)...)
+		}
+	}
+	its := [2]seq.Iterator[int]{seq.Start(s), seq.Start(s)}
+	var done [2]bool
+	for i := 0; i < maxMoves; i++ {
+		for k := 0; k < 2; k++ {
+			recs[k] = append(recs[k], step(its[k], &done[k])...)
+		}
+	}
+	return
+}
+
 func checkTerm(t *Term, origin string) {
 	n := 0
 	number(t, &n)
 	id := t.String()
-	if plib.Only != "" && plib.Only != id && plib.Only != "term:"+id && plib.Only != "term2:"+id {
+	if plib.Only != "" && plib.Only != id && plib.Only != "term:"+id && plib.Only != "term2:"+id && plib.Only != "term3:"+id {
 		return
 	}
 	const maxMoves, budget = 8, 400
@@ -515,6 +558,26 @@ func checkTerm(t *Term, origin string) {
 			res.Violate("term2:"+id, "c08-second-start-differs", fmt.Sprintf("term %s: the same Seq value started twice\n first:  %s\n second: %s", id, strings.Join(a, " "), strings.Join(b, " ")),
 				map[string]any{"probe": "seqmodel", "mode": "c08", "only": id})
 		}
+	}
+	if !hasShared(t) && len(got) < 120 && f["yield"] {
+		func() {
+			defer func() {
+				if r := recover(); r != nil {
+					if _, ok := r.(budgetExceeded); !ok {
+						panic(r)
+					}
+				}
+			}()
+			solo, recs := driveInterleaved(t, maxMoves, budget)
+			res.Count("interleaved_double_starts", 1)
+			for k := 0; k < 2; k++ {
+				if d := firstDiff(solo, recs[k]); d >= 0 {
+					res.Violate("term3:"+id, "c08-interleaved-starts-differ", fmt.Sprintf("term %s: the same Seq value started twice, iterators advanced alternately; iterator #%d\n alone:       %s\n interleaved: %s", id, k+1, strings.Join(solo, " "), strings.Join(recs[k], " ")),
+						map[string]any{"probe": "seqmodel", "mode": "c08", "only": id})
+					break
+				}
+			}
+		}()
 	}
 	if d := firstDiff(want, got); d >= 0 {
 		res.Violate("term:"+id, "c08-trace", fmt.Sprintf("term %s\n reference: %s\n real:      %s\n first difference at event %d: want %q got %q",
@@ -595,21 +658,30 @@ type seg struct {
 }
 type gen struct {
 	Name string
-	Segs []seg
+	// Static: the first yield site is NOT under a Delay (the Bind / BindRecv value is built once, when the Seq is
+	// built, and shared by every run of it); its segment therefore has no effect of its own
+	Static bool
+	// SelfRead: the generator code reads Current() of its OWN iterator while an advance is in flight
+	// (it must see the value delivered by the latest successful advance)
+	SelfRead bool
+	Segs     []seg
 	End  string // normal | return | retval | loop (loop = segments repeat forever) | retval-in-loop (the whole generator is the body of a While loop and returns its value from inside)
 }
 
 const retVal = 4242
+
+// selfCur reads Current() of the iterator under test (set by the history runner)
+var selfCur = func() int { return -1 }
 
 // real generator; effects are logged into l
 func (g gen) real(l *[]string) seq.Seq[int] {
 	if g.End == "retval-in-loop" {
 		inner := gen{Name: g.Name, Segs: g.Segs, End: "retval"}
 		body := inner.real(l)
-		n := 0
 		// a loop that would run twice; the body returns a value from inside its first iteration
+		// (the counter belongs to the run: one Seq value may be started several times)
 		return seq.Delay(func() seq.Seq[int] {
-			n = 0
+			n := 0
 			return seq.For(func() bool { n++; return n <= 2 }, func() {}, body)
 		})
 	}
@@ -647,9 +719,25 @@ func (g gen) real(l *[]string) seq.Seq[int] {
 			}
 		}
 		s := g.Segs[i]
+		if g.Static && i == 0 {
+			v := 10 + carry
+			if s.Echo {
+				return seq.BindRecv(v, func(r int) seq.Seq[int] {
+					*l = append(*l, fmt.Sprintf("recv%d=%d", i, r))
+					return from(i+1, r)
+				})
+			}
+			return seq.Bind(v, func() seq.Seq[int] {
+				*l = append(*l, fmt.Sprintf("resume%d", i))
+				return from(i+1, 0)
+			})
+		}
 		return seq.Delay(func() seq.Seq[int] {
 			v := 10*(i+1) + carry
 			*l = append(*l, fmt.Sprintf("seg%d", i))
+			if g.SelfRead {
+				*l = append(*l, fmt.Sprintf("cur=%d", selfCur()))
+			}
 			if s.Echo {
 				return seq.BindRecv(v, func(r int) seq.Seq[int] {
 					*l = append(*l, fmt.Sprintf("recv%d=%d", i, r))
@@ -709,7 +797,12 @@ func (m *model) advance(recv int) bool {
 		}
 		return false
 	}
-	m.l = append(m.l, fmt.Sprintf("seg%d", m.pos))
+	if !(m.g.Static && m.pos == 0) {
+		m.l = append(m.l, fmt.Sprintf("seg%d", m.pos))
+		if m.g.SelfRead {
+			m.l = append(m.l, fmt.Sprintf("cur=%d", m.current))
+		}
+	}
 	m.current = 10*(m.pos+1) + m.carry
 	return true
 }
@@ -798,6 +891,12 @@ func family() []gen {
 		gs = append(gs, gen{Name: "n1-bind-" + e, Segs: []seg{{false}}, End: e})
 		gs = append(gs, gen{Name: "n2-echo-bind-" + e, Segs: []seg{{true}, {false}}, End: e})
 	}
+	// yield sites outside any Delay
+	gs = append(gs, gen{Name: "static-bind-retval", Static: true, Segs: []seg{{false}}, End: "retval"})
+	gs = append(gs, gen{Name: "static-echo-bind-retval", Static: true, Segs: []seg{{true}, {false}}, End: "retval"})
+	gs = append(gs, gen{Name: "static-bind-echo-normal", Static: true, Segs: []seg{{false}, {true}}, End: "normal"})
+	gs = append(gs, gen{Name: "selfread-bind-bind-bind-normal", SelfRead: true, Segs: []seg{{false}, {false}, {false}}, End: "normal"})
+	gs = append(gs, gen{Name: "selfread-echo-bind-retval", SelfRead: true, Segs: []seg{{true}, {false}}, End: "retval"})
 	gs = append(gs, gen{Name: "loop-echo", Segs: []seg{{true}}, End: "loop"})
 	gs = append(gs, gen{Name: "loop-bind-echo", Segs: []seg{{false}, {true}}, End: "loop"})
 	return gs
@@ -821,6 +920,7 @@ func runC09() {
 		}
 		var rl []string
 		it := seq.Start(g.real(&rl)).(seq.Generator[int])
+		selfCur = func() int { return it.Current() }
 		m := &model{g: g}
 		var wantT, gotT []string
 		bad := -1
@@ -854,6 +954,36 @@ func runC09() {
 		}
 		if len(res.Samples) < 3 && len(hist) == maxLen && g.Name == "n2-m2-retval" && hist[0] == "C" && hist[1] == "Sa" && hist[2] == "M" && hist[3] == "Sb" {
 			res.Sample(map[string]any{"generator": g.Name, "history": strings.Join(hist, ","), "real": gotT, "model": wantT})
+		}
+		// the same history on TWO iterators started from ONE Seq value, advanced alternately call by call:
+		// each must follow the protocol model on its own (nothing of a run lives in the Seq value)
+		if len(hist) <= 5 && g.End != "loop" && !g.SelfRead {
+			var sl []string
+			s := g.real(&sl)
+			its := [2]seq.Generator[int]{seq.Start(s).(seq.Generator[int]), seq.Start(s).(seq.Generator[int])}
+			ms := [2]*model{{g: g}, {g: g}}
+			for i, op := range hist {
+				for k := 0; k < 2; k++ {
+					mark, mmark := len(sl), len(ms[k].l)
+					w := ms[k].apply(op)
+					var gv string
+					func() {
+						defer func() {
+							if r := recover(); r != nil {
+								gv = fmt.Sprint("PANIC:", r)
+							}
+						}()
+						gv = applyReal(its[k], op, ms[k].state == 2)
+					}()
+					wfx, gfx := strings.Join(ms[k].l[mmark:], "."), strings.Join(sl[mark:], ".")
+					if w != gv || wfx != gfx {
+						res.Violate("hist2:"+id, "c09-protocol-two-iterators-of-one-seq", fmt.Sprintf("generator %s, ONE Seq value started twice, history %v applied to both iterators alternately: call %d on iterator #%d\n model: %s fx=%s\n real:  %s fx=%s", g.Name, hist, i, k+1, w, wfx, gv, gfx),
+							map[string]any{"probe": "seqmodel", "mode": "c09", "only": id})
+						return
+					}
+				}
+			}
+			res.Count("two_iterators_of_one_seq_histories", 1)
 		}
 		if bad >= 0 {
 			res.Violate("hist:"+id, "c09-protocol", fmt.Sprintf("generator %s history %v: call %d\n model: %s\n real:  %s", g.Name, hist, bad, wantT[bad], gotT[bad]),
